@@ -56,6 +56,13 @@ impl FragmentBuffer {
     }
 }
 
+#[cfg(uflow_verif)]
+impl FragmentBuffer {
+    pub fn verif_capacity(&self) -> usize {
+        self.buffer.len()
+    }
+}
+
 #[cfg(test)]
 mod tests {
     use super::*;
